@@ -47,7 +47,7 @@ async def iter_sse(response: httpx.Response) -> AsyncIterator[SSEEvent]:
             yield event
 
 
-def _parse_sse_event(lines: List[str]) -> SSEEvent:
+def _parse_sse_event(lines: List[str]) -> SSEEvent | None:
     data = []
     event = None
     id = None
@@ -71,6 +71,8 @@ def _parse_sse_event(lines: List[str]) -> SSEEvent:
                     retry = int(value)
                 except ValueError:
                     pass
+    if not data and event is None and id is None and retry is None:
+        return None  # only comments (e.g. a keep-alive) or unknown fields: nothing to dispatch
     return SSEEvent(data="\n".join(data), event=event, id=id, retry=retry)
 
 
